@@ -1795,6 +1795,11 @@ impl Driver {
                     }
                 }
                 Liveness::Dead(_) if !maintained => {}
+                // maintenance purges in bounded batches (100 / 500 entries per run): with more dead
+                // entries than that, one run legitimately leaves some behind
+                Liveness::Dead(_) if pre.entries.len() >= (if is_sync { mini_moka::verif::constants::SYNC_EVICTION_BATCH_SIZE } else { mini_moka::verif::constants::UNSYNC_EVICTION_BATCH_SIZE }) => {
+                    self.result.stats.inc("dead_entries_left_by_a_batch_limited_purge");
+                }
                 Liveness::Dead(reason) => {
                     // held although invalidated / replaced, after maintenance has run
                     if !cur_matches && self.truth.cur(e.key).is_some() {
